@@ -1657,6 +1657,12 @@ file_new(struct archive_write *a, struct archive_entry *entry,
 		    "You should disable making Joliet extension");
 		ret = ARCHIVE_WARN;
 	}
+	if (u16 == NULL) {
+		free(file);
+		archive_set_error(&a->archive, ARCHIVE_ERRNO_MISC,
+		    "Can't record entry in 7-Zip file without pathname");
+		return (ARCHIVE_FAILED);
+	}
 	file->utf16name = malloc(u16len + 2);
 	if (file->utf16name == NULL) {
 		free(file);
